@@ -43,6 +43,10 @@ inductive Leg where
   | braNb (n : Nat) | braPhys
   | opNb (n : Nat) | opOut | opIn
   | blkKet (n : Nat) | blkOp (n : Nat) | blkBra (n : Nat)
+  -- global labels (tree level): `gKet i n` = the leg of the ket tensor OF NODE `i` toward neighbour `n`, …
+  | gKet (i n : Nat) | gKetPhys (i : Nat)
+  | gBra (i n : Nat) | gBraPhys (i : Nat)
+  | gOp (i n : Nat) | gOpOut (i : Nat) | gOpIn (i : Nat)
   deriving DecidableEq, Repr
 
 structure T where
